@@ -744,11 +744,11 @@ def _p2_bad_case(draw):
     I = draw(st.integers(1, 4))
     R = draw(st.integers(1, 3))
     kind = draw(st.sampled_from(["n_projections", "scaled", "dup_column", "factor_rank", "weights_len", "projection_rank",
-                                 "n_factors"]))
-    if kind == "dup_column" and R < 2:
+                                 "n_factors", "scaled", "zero_column", "neg_inner"]))
+    if kind in ("dup_column", "neg_inner") and R < 2:
         R = 2
     return {"I": I, "R": R, "K": draw(st.integers(1, 4)), "kind": kind, "seed": draw(gen.seeds), "pos": draw(st.integers(0, 3)),
-            "delta": draw(st.sampled_from([-1, 1])), "factor": draw(st.sampled_from([1.1, 0.9, -1.1, 1.001])),
+            "delta": draw(st.sampled_from([-1, 1])), "factor": draw(st.sampled_from([0.9, 1.1, 0.5, -1.1, 1.001, 0.999, -0.9])),
             "which": draw(st.sampled_from([1, 2]))}
 
 
@@ -771,6 +771,15 @@ def _p2_bad_build(case):
     elif kind == "dup_column":
         q = projs[p].copy()
         q[:, 1] = q[:, 0]
+        projs[p] = q
+    elif kind == "zero_column":          # P^T P - I has only non-positive entries
+        q = projs[p].copy()
+        q[:, case["pos"] % R] = 0.0
+        projs[p] = q
+    elif kind == "neg_inner":            # unit columns with a negative inner product
+        q = projs[p].copy()
+        c = q[:, 1] - 0.6 * q[:, 0]
+        q[:, 1] = c / np.linalg.norm(c)
         projs[p] = q
     elif kind == "factor_rank":
         i = case["which"]
@@ -801,7 +810,8 @@ def o_p2_bad(case):
                     ("apply_parafac2_projections", lambda: P2.apply_parafac2_projections(_p2_bad_build(case))),
                 ]
             _must_raise(entries, f"parafac2/reject:{case['kind']}@{bk}", what)
-    return {"nontrivial": True, "labels": [f"kind={case['kind']}", f"neg_scale={scaled_neg}"]}
+    return {"nontrivial": True, "labels": [f"kind={case['kind']}", f"neg_scale={scaled_neg}"] +
+            ([f"factor={case['factor']}"] if case["kind"] == "scaled" else [])}
 
 
 # ----------------------------------------------------------------------------
